@@ -228,6 +228,9 @@ public:
   Poison poison;
   bool compressOwner = true, compressRdata = true;
   bool compressAny = false; // lenient family: also compress SRV/NAPTR RDATA names (RFC 2052 style)
+  bool allTargets = true;   // pointer targets: label starts, and also earlier pointers (pointer-to-pointer chains) and
+                            // earlier root bytes; false = label starts only
+  bool latestOnly = false;  // per split point only the most recent matching target (instead of every earlier one)
 
   void u8(unsigned v) { b.wire.push_back(char(v & 0xff)); }
   void u16(unsigned v)
@@ -281,9 +284,18 @@ public:
     opts.push_back({k, 0xffffffffu});
     if (mayCompress)
       for (size_t j = 0; j <= k; ++j)
+      {
+        size_t first = opts.size();
         for (auto &e : table_)
-          if (e.off < 0x4000 && e.suffix.size() == k - j && std::equal(e.suffix.begin(), e.suffix.end(), n.labels.begin() + long(j)))
-            opts.push_back({j, e.off});
+          if (e.off < 0x4000 && (allTargets || e.label) && e.suffix.size() == k - j &&
+              std::equal(e.suffix.begin(), e.suffix.end(), n.labels.begin() + long(j)))
+          {
+            if (latestOnly && opts.size() > first)
+              opts.back() = {j, e.off};
+            else
+              opts.push_back({j, e.off});
+          }
+      }
     int c = odo ? odo->next(int(opts.size())) : 0;
     Opt o = opts[size_t(c)];
     for (size_t i = 0; i < o.j; ++i)
@@ -292,6 +304,7 @@ public:
       site.positions.push_back(at);
       Entry e;
       e.off = at;
+      e.label = true;
       e.suffix.assign(n.labels.begin() + long(i), n.labels.end());
       pending_.push_back(e);
       u8(unsigned(n.labels[i].size()));
@@ -301,6 +314,7 @@ public:
     site.positions.push_back(at);
     Entry e;
     e.off = at;
+    e.label = false;
     e.suffix.assign(n.labels.begin() + long(o.j), n.labels.end());
     pending_.push_back(e);
     if (o.target == 0xffffffffu)
@@ -422,6 +436,7 @@ private:
   struct Entry
   {
     uint32_t off;
+    bool label; // a literal label starts here (else: a pointer or a root byte)
     std::vector<Bytes> suffix;
   };
   struct Patch
